@@ -23,11 +23,15 @@ sys.path.insert(0, SIM)
 REPO = os.environ.get("CG_REPO", "/repo")
 sys.path.insert(0, REPO)
 
-from cgsim import core, peers  # noqa: E402
+from cgsim import core, peers, ref  # noqa: E402
 from cgsim.core import H, Violation, Skip, match_known  # noqa: E402
 
 
 RUN_WALL_LIMIT = 25
+
+
+STALE_SHARE = 0.15  # share of runs in which every circuit handed to the library was seen by it before in another state (ref.STALE)
+TWICE_SHARE = 0.2   # share of runs in which every judged library call is preceded by the same call (see RunCtx.call)
 
 
 def _on_alarm(signum, frame):
@@ -99,6 +103,9 @@ class World:
         ctx = core.RunCtx(self.cg, peer, self.seams)
         ctx.known = self.known
         ctx.prop_id = self.prop_id
+        ctx.twice = bool(case.get("_twice")) and not getattr(self.prop, "NO_TWICE", False)
+        ref.STALE.update(on=bool(case.get("_stale")) and not getattr(self.prop, "NO_STALE", False),
+                         seed=pc.get("seed", 0), used=0)
         res = {"status": "ok"}
         # watchdog: a single run that takes longer than RUN_WALL_LIMIT seconds (an exponential library query on an
         # unlucky circuit, a heavily loaded machine) is abandoned and counted as skipped - never as held or violated
@@ -121,6 +128,9 @@ class World:
             signal.alarm(0)
             self.seams.remove()
             peers.uninstall()
+            if ref.STALE["used"]:
+                ctx.probe("object_seen_before_in_other_state", ref.STALE["used"])
+            ref.STALE["on"] = False
         for kind, k, hit in peer.trace:
             ctx.log("peer", kind, k, hit)
         res["digest"] = ctx.digest()
@@ -134,6 +144,96 @@ class World:
         res["events"] = ctx.events[:60]
         return res
 
+    def execute_fresh(self, cases):
+        """Execute a list of cases in a forked child of this (pristine) interpreter and return the result of the last
+        one: whatever state the library keeps between calls starts from scratch for every candidate."""
+        r, wfd = os.pipe()
+        pid = os.fork()
+        if pid == 0:
+            code = 0
+            try:
+                os.close(r)
+                res = None
+                for c in cases:
+                    res = self.execute(c)
+                data = json.dumps(res, default=str).encode()
+                while data:
+                    n = os.write(wfd, data)
+                    data = data[n:]
+            except BaseException:
+                code = 1
+            finally:
+                os._exit(code)
+        os.close(wfd)
+        chunks = []
+        while True:
+            b = os.read(r, 1 << 16)
+            if not b:
+                break
+            chunks.append(b)
+        os.close(r)
+        os.waitpid(pid, 0)
+        try:
+            return json.loads(b"".join(chunks).decode())
+        except ValueError:
+            return {"status": "harness_error", "trace": "forked execution produced no result", "digest": ""}
+
+    def minimise_fresh(self, prior, case, check_id, sig, budget_s=90.0):
+        """History-aware minimisation in a pristine interpreter: first the prelude (cases executed before the judged
+        one) is reduced ddmin-style, then the judged case itself; every candidate runs in a fresh fork."""
+        t0 = time.time()
+        sig_key = getattr(self.prop, "sig_key", lambda s: None)
+        want = sig_key(sig)
+
+        def fails(pr, c):
+            r = self.execute_fresh(list(pr) + [c])
+            return r.get("status") == "violation" and r.get("check_id") == check_id and sig_key(r.get("sig")) == want
+
+        n_exec = 0
+        chunk = len(prior)
+        while prior and chunk >= 1 and time.time() - t0 < budget_s * 0.5:
+            i = 0
+            while i < len(prior) and time.time() - t0 < budget_s * 0.5:
+                cand = prior[:i] + prior[i + chunk:]
+                n_exec += 1
+                if fails(cand, case):
+                    prior = cand
+                else:
+                    i += chunk
+            if chunk == 1:
+                break
+            chunk = max(1, chunk // 2)
+        shrink = getattr(self.prop, "shrink", None)
+
+        def with_generic(c):
+            for flag in ("_twice", "_stale"):
+                if c.get(flag):
+                    yield {k: v for k, v in c.items() if k != flag}
+            if shrink is not None:
+                yield from shrink(c)
+
+        improved = True
+        while improved and time.time() - t0 < budget_s:
+            improved = False
+            try:
+                for cand in with_generic(case):
+                    if time.time() - t0 > budget_s:
+                        break
+                    if cand is None:
+                        continue
+                    try:
+                        cand = json.loads(json.dumps(cand))
+                    except (TypeError, ValueError):
+                        continue
+                    n_exec += 1
+                    if fails(prior, cand):
+                        case = cand
+                        improved = True
+                        break
+            except Exception:
+                break
+        return prior, case, n_exec
+
     def minimise(self, case, check_id, sig, budget_s=20.0, max_exec=600):
         shrink = getattr(self.prop, "shrink", None)
         if shrink is None:
@@ -143,10 +243,16 @@ class World:
         improved = True
         sig_key = getattr(self.prop, "sig_key", lambda s: None)
         want = sig_key(sig)
+        def with_generic(c):
+            for flag in ("_twice", "_stale"):
+                if c.get(flag):
+                    yield {k: v for k, v in c.items() if k != flag}
+            yield from shrink(c)
+
         while improved:
             improved = False
             try:
-                cands = shrink(case)
+                cands = with_generic(case)
                 for cand in cands:
                     if n_exec >= max_exec or time.time() - t0 > budget_s:
                         return case, n_exec
@@ -178,6 +284,7 @@ def main():
     ap.add_argument("--seconds", type=float, default=30.0)
     ap.add_argument("--out", required=True)
     ap.add_argument("--replay")
+    ap.add_argument("--fresh-minimise", help="replay file to minimise (prelude and case) in a pristine interpreter")
     ap.add_argument("--no-minimise", action="store_true")
     ap.add_argument("--only", type=int, default=None, help="run only run index j (determinism self-test)")
     args = ap.parse_args()
@@ -187,8 +294,8 @@ def main():
 
     report = {"hashseed": os.environ.get("PYTHONHASHSEED"), "wseed": args.wseed, "runs": [],
               "violations": [], "harness_errors": [], "ok": True}
-    if args.replay:
-        with open(args.replay) as f:
+    if args.replay or args.fresh_minimise:
+        with open(args.replay or args.fresh_minimise) as f:
             rp = json.load(f)
         w = World(rp["property"])
         # history of the interpreter: cases executed (and discarded) before the judged one
@@ -196,7 +303,32 @@ def main():
         hist = rp.get("prior_runs")
         if hist:
             for j in hist["js"]:
-                prior.append(json.loads(json.dumps(w.prop.gen(random.Random(H(hist["wseed"], j)), hist["tier"]))))
+                prng = random.Random(H(hist["wseed"], j))
+                pcase = w.prop.gen(prng, hist["tier"])
+                if prng.random() < TWICE_SHARE:
+                    pcase["_twice"] = True
+                if prng.random() < STALE_SHARE:
+                    pcase["_stale"] = True
+                prior.append(json.loads(json.dumps(pcase)))
+        if args.fresh_minimise:
+            prior, mcase, n_exec = w.minimise_fresh(prior, rp["case"], rp["check_id"], rp["signature"])
+            r = w.execute_fresh(prior + [mcase])
+            if r.get("status") == "violation" and r.get("check_id") == rp["check_id"]:
+                rp.pop("prior_runs", None)
+                rp["prior_cases"] = prior
+                rp["case"] = mcase
+                rp["digest"] = r["digest"]
+                rp["detail"] = r.get("detail") or rp.get("detail")
+                rp["signature"] = r.get("sig") or rp.get("signature")
+                rp.setdefault("shrink", {})["fresh_execs"] = n_exec
+                if not prior:
+                    rp.pop("prior_cases", None)
+                with open(args.fresh_minimise, "w") as f:
+                    json.dump(rp, f, indent=1)
+            report["fresh_minimise"] = {"status": r.get("status"), "execs": n_exec, "prior": len(prior)}
+            with open(args.out, "w") as f:
+                json.dump(report, f)
+            return
         for pc in prior:
             w.execute(pc)
         r = w.execute(rp["case"])
@@ -227,6 +359,10 @@ def main():
         rng = random.Random(rseed)
         try:
             case = prop.gen(rng, args.tier)
+            if rng.random() < TWICE_SHARE:
+                case["_twice"] = True
+            if rng.random() < STALE_SHARE:
+                case["_stale"] = True
             case = json.loads(json.dumps(case))
         except Exception:
             report["harness_errors"].append({"j": j, "rseed": rseed, "trace": "gen: " + traceback.format_exc()[-2000:]})
@@ -262,7 +398,7 @@ def main():
                 mcase, mr = case, r  # should not happen; keep the original
             report["violations"].append({
                 "j": j, "rseed": rseed, "check_id": mr["check_id"], "detail": mr["detail"], "sig": mr["sig"],
-                "case": mcase, "digest": mr["digest"], "orig_size": len(json.dumps(case)),
+                "case": mcase, "orig_case": case, "digest": mr["digest"], "orig_size": len(json.dumps(case)),
                 "min_size": len(json.dumps(mcase)), "shrink_execs": n_exec, "events": mr["events"][-25:],
             })
         if r["status"] in ("ok", "violation"):
